@@ -102,3 +102,20 @@ Section Own.
 End Own.
 
 Definition init_ostate : ostate := mkO [] [] [].
+
+(** ** The key a signer uses
+
+    [signer.New(key)] builds the object all token kinds sign and check with.
+    [keep] is what the constructor stores of the key it is given: the code
+    stores the parameter itself ([keep_all]; a full copy would be the same
+    function); a constructor copying into a fixed 32-byte buffer is
+    [keep_first 32].  The MAC of the object is the MAC under the stored key. *)
+Definition keep_all (key : bytes) : bytes := key.
+Definition keep_first (n : nat) (key : bytes) : bytes := firstn n key.
+
+Section KeyUsed.
+  Variable mac : bytes -> bytes -> bytes.
+  Variable keep : bytes -> bytes.
+  Definition obj_sign (key d : bytes) : bytes := sign mac (keep key) d.
+  Definition obj_check (key bs : bytes) : option bytes := check mac (keep key) bs.
+End KeyUsed.
